@@ -1,8 +1,12 @@
 //! Controlled scheduler for the real chunker (C10, C11): producer and consumer run on two OS
 //! threads; the instrumented mutex (`verif-hooks`) and the harness wakers make every lock
 //! acquisition and every `wake()` a block point at which the thread waits for the scheduler.
-//! Block points are only ever *before* an acquisition and *before* a wake, so no thread is
-//! suspended while holding the lock and the scheduler cannot deadlock the program.
+//! Block points: before an acquisition (`Acquire`; enabled only while nobody holds the lock, which
+//! the scheduler tracks), right after one (`Held`: the thread is INSIDE its critical section; the
+//! other thread may run meanwhile — it can do nothing to the shared state there unless it
+//! bypasses the lock, which is what this point is for), before a `try_lock` (`TryAcquire`),
+//! before a `wake()`, and before each poll of the consumer (`PollStart`, where the parking rules
+//! apply).
 
 use crate::common::*;
 use bytes::Bytes;
@@ -16,6 +20,12 @@ use std::task::{Context, Poll};
 enum At {
     Running,
     Acquire,
+    /// inside a critical section, just after acquiring the lock
+    Held,
+    /// about to `try_lock`
+    TryAcquire,
+    /// (consumer) about to poll the body
+    PollStart,
     Wake(u64),
     /// the producer waits until this many bytes have been delivered to the consumer
     Wait(usize),
@@ -25,6 +35,8 @@ enum At {
 struct CtlState {
     at: [At; 2],
     grant: [bool; 2],
+    /// which thread holds the chunker's lock (from `Acquired` to `Release`)
+    holder: Option<usize>,
 }
 
 struct Ctl {
@@ -39,6 +51,7 @@ fn ctl() -> &'static Ctl {
         st: Mutex::new(CtlState {
             at: [At::Finished; 2],
             grant: [false; 2],
+            holder: None,
         }),
         cv: Condvar::new(),
     })
@@ -54,6 +67,9 @@ fn block(kind: At) {
     };
     let c = ctl();
     let mut st = c.st.lock().unwrap();
+    if kind == At::Held {
+        st.holder = Some(tid);
+    }
     st.at[tid] = kind;
     c.cv.notify_all();
     while !st.grant[tid] {
@@ -80,9 +96,19 @@ pub fn on_wake(id: u64) {
 
 /// Installs the mutex callback (once per process).
 pub fn install_hook() {
-    http_serve::verif_hooks::set_callback(Some(Arc::new(|ev| {
-        if ev == http_serve::verif_hooks::Event::Acquire {
-            block(At::Acquire);
+    use http_serve::verif_hooks::Event;
+    http_serve::verif_hooks::set_callback(Some(Arc::new(|ev| match ev {
+        Event::Acquire => block(At::Acquire),
+        Event::TryAcquire => block(At::TryAcquire),
+        Event::Acquired => block(At::Held),
+        Event::Release => {
+            if let Some(tid) = TID.with(|t| t.get()) {
+                let c = ctl();
+                let mut st = c.st.lock().unwrap();
+                if st.holder == Some(tid) {
+                    st.holder = None;
+                }
+            }
         }
     })));
 }
@@ -169,6 +195,7 @@ pub fn run_schedule(prog: &Program, prefix: &[usize]) -> RunResult {
         let mut st = c.st.lock().unwrap();
         st.at = [At::Running; 2];
         st.grant = [false; 2];
+        st.holder = None;
     }
     let mut rb = http::Request::get("/");
     if prog.gz_level > 0 {
@@ -302,6 +329,7 @@ pub fn run_schedule(prog: &Program, prefix: &[usize]) -> RunResult {
                 };
                 let waker = wakers.entry(id).or_insert_with(|| mk_waker(id, &wl)).clone();
                 let mut cx = Context::from_waker(&waker);
+                block(At::PollStart);
                 let (s, d) = match body.as_mut().poll_frame(&mut cx) {
                     Poll::Ready(Some(Ok(f))) => {
                         let d = f.into_data().unwrap().to_vec();
@@ -342,36 +370,52 @@ pub fn run_schedule(prog: &Program, prefix: &[usize]) -> RunResult {
     let mut parked_forever = false;
     let mut wait_deadlock = false;
     let mut step_no = 0usize;
+    // a thread that must run next without this being a scheduling decision (the consumer from
+    // `PollStart` to its first lock operation: nothing it does in between is visible)
+    let mut forced: Option<usize> = None;
+    // wake() calls delivered since the consumer's current poll started
+    let mut wakes_since_pollstart: Vec<u64> = vec![];
     loop {
         // wait until both threads are blocked or finished
-        let at = {
+        let (at, holder) = {
             let mut st = c.st.lock().unwrap();
             while st.at.iter().any(|a| *a == At::Running) || st.grant.iter().any(|g| *g) {
                 st = c.cv.wait(st).unwrap();
             }
-            st.at
+            (st.at, st.holder)
         };
         if at[0] == At::Finished && producer_done_at_poll.is_none() {
             producer_done_at_poll = Some(polls_seen);
         }
         let delivered_now: usize =
             shared.polls.lock().unwrap().iter().map(|(_, _, d)| d.len()).sum();
+        // a blocking acquisition can only proceed while nobody holds the lock
         let p_enabled = match at[0] {
-            At::Acquire | At::Wake(_) => true,
+            At::Acquire => holder.is_none(),
+            At::Held | At::TryAcquire | At::Wake(_) => true,
             At::Wait(target) => wait_deadlock || delivered_now >= target,
             _ => false,
         };
-        let c_blocked = matches!(at[1], At::Acquire);
-        // the consumer only runs when it is not parked, was woken, or polls spuriously
-        let c_is_poll = c_blocked; // every consumer block point is a poll or the final drop
-        let c_enabled = c_is_poll
-            && (parked.is_none() || woken || spurious_left > 0 || consumer_terminal.is_some());
+        // the consumer only STARTS a poll when it is not parked, was woken, or polls spuriously
+        let poll_gate = parked.is_none() || woken || spurious_left > 0 || consumer_terminal.is_some();
+        let c_blocked = at[1] == At::PollStart && !poll_gate;
+        let c_enabled = match at[1] {
+            At::PollStart => poll_gate,
+            At::Acquire => holder.is_none(),
+            At::Held | At::TryAcquire => true,
+            _ => false,
+        };
         let mut options = vec![];
         if p_enabled {
             options.push(0usize);
         }
         if c_enabled {
             options.push(1usize);
+        }
+        if let Some(f) = forced.take() {
+            if options.contains(&f) {
+                options = vec![f];
+            }
         }
         if options.is_empty() {
             if c_blocked && matches!(at[0], At::Wait(_)) {
@@ -399,10 +443,14 @@ pub fn run_schedule(prog: &Program, prefix: &[usize]) -> RunResult {
             step_no += 1;
         }
         let tid = options[choice];
-        if tid == 1 && parked.is_some() && !woken && consumer_terminal.is_none() {
-            spurious_left -= 1;
-        }
         let at_before = at[tid];
+        if tid == 1 && at_before == At::PollStart {
+            if parked.is_some() && !woken && consumer_terminal.is_none() {
+                spurious_left -= 1;
+            }
+            wakes_since_pollstart.clear();
+            forced = Some(1);
+        }
         {
             let mut st = c.st.lock().unwrap();
             st.grant[tid] = true;
@@ -411,14 +459,22 @@ pub fn run_schedule(prog: &Program, prefix: &[usize]) -> RunResult {
                 st = c.cv.wait(st).unwrap();
             }
         }
+        let at_after = c.st.lock().unwrap().at[tid];
         match (tid, at_before) {
-            (0, At::Acquire) => trace.push(TraceStep::Prod),
+            // a producer critical section begins when the lock has been obtained
+            (0, At::Acquire) | (0, At::TryAcquire) => {
+                if at_after == At::Held {
+                    trace.push(TraceStep::Prod);
+                }
+            }
             (0, At::Wake(id)) => {
                 trace.push(TraceStep::Wake(id));
+                wakes_since_pollstart.push(id);
                 if parked == Some(id) {
                     woken = true;
                 }
             }
+            (0, _) => {}
             (1, _) => {
                 let polls = shared.polls.lock().unwrap();
                 if polls.len() > polls_seen {
@@ -428,8 +484,10 @@ pub fn run_schedule(prog: &Program, prefix: &[usize]) -> RunResult {
                         trace.push(TraceStep::DropBody);
                     } else {
                         if s == "PEND" {
+                            // (a wake() of this very waker that arrived while the poll was in
+                            // progress counts: an executor polls such a task again)
                             parked = Some(id);
-                            woken = false;
+                            woken = wakes_since_pollstart.contains(&id);
                         } else {
                             parked = None;
                             woken = false;
